@@ -71,6 +71,7 @@ func runC15(t *testing.T, c StallCase) *kit.Result {
 	cfg := c.Sched.Config()
 	cfg.Verbose = kit.Verbose
 	var sim *simrt.Sim
+	kit.RaceLogDelta() // (race-detector workers) forget what earlier runs reported
 	opsDone := 0
 	bytesWritten := 0
 	dropChecks := 0
@@ -461,6 +462,17 @@ func runC15(t *testing.T, c StallCase) *kit.Result {
 	res.Absorb(out)
 	if sim != nil && kit.Verbose {
 		res.Trace = sim.TraceLines()
+	}
+	if simrt.RaceEnabled {
+		// every fourth worker runs a -race binary: an unsynchronised pair of
+		// accesses inside kevo's replication code is reported although the two
+		// tasks ran one after the other (races between parts of the harness are
+		// filtered out)
+		res.Probe("runs_under_the_race_detector")
+		if report := kit.KevoRaces(kit.RaceLogDelta()); report != "" {
+			res.V = &kit.Violation{Kind: "data-race", Signature: kit.RaceSignature(report), Detail: clipReport(report)}
+			res.Probes["race_reports"] += int64(strings.Count(report, "WARNING: DATA RACE"))
+		}
 	}
 	res.Probes["primary_ops_completed"] += int64(opsDone)
 	res.Probes["bytes_written_to_primary"] += int64(bytesWritten)
